@@ -75,12 +75,13 @@ pub fn spec(id: &str) -> Option<PropSpec> {
                 cs(&THRESH, "subsets", 84, 84, true),
                 cs(&THRESH, "large", 10, 120, false),
                 cs(&THRESH, "extremes", 78, 156, true),
+                cs(&THRESH, "dealer-shapes", 20, 60, true),
                 cs(&THRESH, "params", 2, 4, false),
             ],
             "cases = (scenario kind, group, scheme, t, n, subset size and order | fault-script length and schedule digest | share-verification (honest?, Byzantine mode)); \
              non-trivial = a proper subset / a run with at least one fault / a negative expectation; distinct by hash of that tuple. \
              Class `subsets` enumerates every (group, scheme in {Basic, PoP}, 2<=t<=n<=7) with every subset of every size. \
-             Class `extremes` enumerates n = 255 (thorough also 254) x every t in 2..=40 x group with exactly-t subsets made of one identifier at one end and t-1 crowded at the other end.",
+             Class `dealer-shapes`: share sets of unusual but valid polynomials dealt by the reference dealer (two participants with equal values, zero top coefficient, constant polynomial, coefficients 1 / r-1), every subset of size >= t. Class `extremes` enumerates n = 255 (thorough also 254) x every t in 2..=40 x group with exactly-t subsets made of one identifier at one end and t-1 crowded at the other end.",
             vec!["cur-blst"],
         )),
         "C01" => Some(base(
